@@ -47,8 +47,8 @@ INVARIANT FlagCoversData
 """
 
 
-def child(scen, path, crash, flush, trace_out="-"):
-    env = dict(os.environ, PYTHONPATH=core.REPO + ":" + core.VERIF, OMP_NUM_THREADS="1")
+def child(scen, path, crash, flush, trace_out="-", mode="kill"):
+    env = dict(os.environ, PYTHONPATH=core.REPO + ":" + core.VERIF, OMP_NUM_THREADS="1", VERIF_CRASH_MODE=mode)
     p = subprocess.run([core.PY, "-m", "harness.ptfile_child", scen, path, str(crash), str(flush), trace_out],
                        env=env, cwd=core.VERIF, stdout=subprocess.PIPE, stderr=subprocess.STDOUT, text=True,
                        timeout=300)
@@ -84,9 +84,10 @@ def classify(path):
 
 
 def crash_job(job):
-    scen, k, f, allowed, tmpdir, full = job
-    path = os.path.join(tmpdir, "crash_%s_%d_%d.h5" % (scen, k, f))
-    rc, outp = child(scen, path, k, f)
+    scen, k, f, allowed, tmpdir, full = job[:6]
+    mode = job[6] if len(job) > 6 else "kill"
+    path = os.path.join(tmpdir, "crash_%s_%d_%d_%s.h5" % (scen, k, f, mode))
+    rc, outp = child(scen, path, k, f, mode=mode)
     res = []
     if rc != 17:
         return [{"what": "harness", "detail": "child rc=%s %s" % (rc, outp[-200:])}]
@@ -135,8 +136,12 @@ def mode_job(job):
         opened = False
     if opened != out["opens"]:
         res.append({"what": "open-outcome", "expected": out["opens"], "observed": opened})
-    if existing and out["intact"] and open(path, "rb").read() != marker:
-        res.append({"what": "existing-file-modified"})
+    if existing and out["intact"]:
+        if not os.path.exists(path):
+            res.append({"what": "existing-file-deleted"})
+            return res
+        if open(path, "rb").read() != marker:
+            res.append({"what": "existing-file-modified"})
     if pt is not None:
         fname = pt.filename
         try:
@@ -153,8 +158,8 @@ def mode_job(job):
     return res
 
 
-SCENARIOS_QUICK = ["export2", "pttempo3"]
-SCENARIOS_THOROUGH = ["export2", "export3", "export1nocaps", "export2T", "pttempo3", "pttempo4D"]
+SCENARIOS_QUICK = ["export2", "pttempo3", "ptcompute3"]
+SCENARIOS_THOROUGH = ["export2", "export3", "export1nocaps", "export2T", "pttempo3", "pttempo4D", "ptcompute3"]
 
 
 def run(ctx):
@@ -213,15 +218,23 @@ def run(ctx):
                 for f in sorted(fs):
                     allowed = set(cls[f:k + 1]) | {"error"}
                     jobs.append((scen, k, f, allowed, tmpdir, full))
+                # the writer is interrupted by an exception at operation k (KeyboardInterrupt, MemoryError, ..):
+                # the stack unwinds and the interpreter shuts down normally, which flushes everything written so
+                # far - but close() of the protocol was never reached, so the file must still not open clean
+                if quick and k % 3:
+                    continue
+                jobs.append((scen, k, k, set(cls[k:k + 1]) | {"error", "warn"}, tmpdir, full, "raise"))
         res = core.pmap(crash_job, jobs, chunksize=2)
-        for (scen, k, f, allowed, _, _), mm in zip(jobs, res):
-            ctx.case({"scenario": scen, "crash_after_op": k, "flush_after_op": f}, nontrivial=f > 0)
+        for job, mm in zip(jobs, res):
+            scen, k, f = job[0], job[1], job[2]
+            how = job[6] if len(job) > 6 else "kill"
+            ctx.case({"scenario": scen, "crash_after_op": k, "flush_after_op": f, "death": how}, nontrivial=f > 0)
             for x in mm:
                 if x["what"] == "harness":
                     raise core.MachineryError(x["detail"])
                 ctx.violation("C17:%s:%s" % (scen.rstrip("0123456789TD"), x["what"]),
-                              "crash after op %d, flush after op %d: %s" % (k, f, x),
-                              {"scenario": scen, "crash": k, "flush": f})
+                              "%s after op %d, flush after op %d: %s" % (how, k, f, x),
+                              {"scenario": scen, "crash": k, "flush": f, "death": how})
         # mode matrix
         mjobs = [(row, tmpdir) for row in (modes or [])]
         for (row, _), mm in zip(mjobs, core.pmap(mode_job, mjobs)):
@@ -245,7 +258,7 @@ def replay(ctx, rep):
     tmpdir = tempfile.mkdtemp(prefix="vptf_")
     try:
         if "crash" in c:
-            mm = crash_job((c["scenario"], c["crash"], c["flush"], {"error", "warn"}, tmpdir, {}))
+            mm = crash_job((c["scenario"], c["crash"], c["flush"], {"error", "warn"}, tmpdir, {}, c.get("death", "kill")))
             for x in mm:
                 ctx.violation("C17:replay:" + x["what"], str(x), c)
         ctx.case(c)
